@@ -499,6 +499,8 @@ def rule_returns(chk):
                         # nt*row + col with col running over the columns of the matrix proper
                         # ... i.e. a loop variable whose range stops at n (directly or through a local that is n: colrange, eqns - whatever they are called)
                         for colv in (idx.left, idx.right):
+                            if isinstance(colv, ast.Name) and colv.id not in lo_nodes and isinstance(ldefs_.get(colv.id), ast.Name) and ldefs_[colv.id].id in lo_nodes:
+                                colv = ldefs_[colv.id]          # a plain copy of a loop variable (`col = rrcol`)
                             if isinstance(colv, ast.Name) and colv.id in lo_nodes:
                                 ra_ = lo_nodes[colv.id].args
                                 stop_ = ra_[0] if len(ra_) == 1 else ra_[1] if len(ra_) in (2, 3) else None
@@ -792,6 +794,10 @@ def rule_row_operations(chk):
         if sp is None:
             raise Skip('index %s' % U(idx))
         R, C = sp
+        # `nt*rb + nt - 1` (the last column of row rb, with the width standing for n + nb) splits into row rb + 1, column -1: a negative constant column is the same entry one
+        # row up
+        if C.is_const() and C.const_value() < 0 and any(mono == ((WN, 1),) for mono in p_.t):
+            R, C = R - Poly.const(1), C + n_ + nb_
         if WN in R.atoms() or WN in C.atoms():
             raise Skip('index %s' % U(idx))
         return R, C
@@ -845,8 +851,13 @@ def rule_row_operations(chk):
                 tg = st.targets[0]
                 if isinstance(st.value, ast.Call) and M.call_name(st.value) == 'declare':
                     continue
+                if isinstance(tg, ast.Name) and tg.id == WN:
+                    continue            # the row width stays a symbol
                 if isinstance(tg, ast.Name):
-                    p_ = from_ast(st.value, env) if tg.id != WN else None
+                    p_ = from_ast(st.value, env)
+                    if p_ is not None and WN in p_.atoms() and not any(len(mono) > 1 and any(a_ == WN for a_, e_ in mono) for mono in p_.t):
+                        # the width used as a bound / column offset (`backCol = rb + nt - k - 1`), not as the multiplier of a row: it is n + nb there
+                        p_ = p_.subs({WN: n_ + nb_})
                     names_ = set(x.id for x in ast.walk(st.value) if isinstance(x, ast.Name))
                     if p_ is not None and not any(isinstance(x, (ast.Subscript, ast.Call)) for x in ast.walk(st.value)) and not (names_ & set(scal)) and \
                             not any(isinstance(x, ast.Constant) and isinstance(x.value, float) for x in ast.walk(st.value)):
@@ -885,11 +896,13 @@ def rule_row_operations(chk):
     last_col = n_ + nb_ - Poly.const(1)
 
     def ends(expr, stack):
-        """(loop entry, value of expr in the first pass, in the last pass) for the innermost loop whose variable expr depends on"""
+        """(loop entry, value of expr in the first pass, in the last pass) for the innermost loop whose variable expr depends on (the row width, where it bounds a loop
+        or offsets a column, is n + nb)"""
+        wsub = {WN: n_ + nb_}
         for var, lo, hi, node in reversed(stack):
             if var in expr.atoms():
-                return (var, lo, hi, node), expr.subs({var: lo}), expr.subs({var: hi - Poly.const(1)})
-        return None, expr, expr
+                return (var, lo, hi, node), expr.subs({var: lo}).subs(wsub), expr.subs({var: hi - Poly.const(1)}).subs(wsub)
+        return None, expr.subs(wsub), expr.subs(wsub)
 
     scaled_rows = set()
     op_stores = set()
